@@ -30,6 +30,7 @@ type EnvVal struct {
 	ty    VType
 	loc   *Loc
 	boxed string
+	param bool // the entry value of a parameter (a reassigned parameter is superseded by its current value)
 }
 
 type Env struct {
@@ -53,7 +54,7 @@ func (g *Gen) baseEnv(heap, old Heap) *Env {
 		env.pkg = g.fn.Pkg.Pkg
 	}
 	for _, p := range g.fn.Params {
-		env.vars[p.Name()] = EnvVal{term: g.vals[p], ty: VType{Go: p.Type()}}
+		env.vars[p.Name()] = EnvVal{term: g.vals[p], ty: VType{Go: p.Type()}, param: true}
 	}
 	return env
 }
